@@ -2,9 +2,20 @@ CHECK = {
     "obligations": ["C07.gen_proxy_book", "C07.c06_method_found", "C07.pinned_mixed_case_refused", "C06.c06_fields", "C06.c06_reply", "C06.c06_reply_extract", "C06.c06_ws", "C06.c06_ws_carrier", "C06.c06_tls_carrier", "C06.parseClientHello_serialize", "C06.gen_hello_structure",
                     "HS.parseExts_correct", "HS.lookupExt_last", "HS.ksLoop_find", "HS.gen_ks",
                     "C06.serverHello_layout", "C06.gen_reply_structure", "C06.gen_ws_structure", "C06.gen_sNeed",
-                    "HS.gen_client_layout", "HS.gen_server_layout", "HS.mkPlain_layout", "HS.window_exact"],
-    "lean_module": "CloakModel.Props.C06Disp",
-    "scenarios": ["C06"],
+                    "HS.gen_client_layout", "HS.gen_server_layout", "HS.mkPlain_layout", "HS.window_exact",
+                    # connector (client.MakeSession, common.backoff / RandRead / RandInt): Props/C06Connector.lean
+                    "C06Connector.gen_structure", "C06Connector.gen_sleeps", "C06Connector.gen_fallback", "C06Connector.gen_config",
+                    "C06Connector.gen_backoff_structure", "C06Connector.gen_randIntBound",
+                    "C06Connector.mk_exactly_numConn", "C06Connector.mk_conns_succeeded", "C06Connector.mk_none_closed",
+                    "C06Connector.mk_failed_closed", "C06Connector.mk_dial_fail_no_close", "C06Connector.mk_key_is_last",
+                    "C06Connector.mk_key_agree", "C06Connector.mk_key_agree_witness", "C06Connector.mk_fallback_hsFail",
+                    "C06Connector.mk_fallback_not_on_dialFail", "C06Connector.mk_fallback_private", "C06Connector.mk_fallback_run",
+                    "C06Connector.mk_no_panic", "C06Connector.mk_zero_panics", "C06Connector.c20_numConn_pos", "C06Connector.mk_config",
+                    "C06Connector.backoff_returned", "C06Connector.backoff_fatal", "C06Connector.backoff_total",
+                    "C06Connector.randRead_full_witness", "C06Connector.randRead_full_partial", "C06Connector.randInt_range",
+                    "C06ConnectorC15.sameKey_from_c15"],
+    "lean_module": "CloakModel.Props.C06All",
+    "scenarios": ["C06", "C06mk"],
     "reset_ops": ["hs.oracle.reset"],
     "timeout": {"quick": 300, "thorough": 1800},
     "rule": "real handshakes in one process over in-memory connections: client DirectTLS.Handshake x {chrome, firefox, safari} and WSOverTLS.Handshake through a "
@@ -12,11 +23,20 @@ CHECK = {
             "x 4 encryption methods x session ids {0, 1, 2^31, 2^32-1, random} x both unordered flags x client clock offsets {-179 s, -60 s, 0, +60 s, +179 s, +179.999999999 s} "
             "x server names incl. 'random' x methods of 1..12 bytes, random UIDs and method bytes; composeReply byte for byte on random inputs. "
             "quick: 4 flavours x 4 x 5 x 2 cases with the other dimensions rotated + 80 random + 40 through dispatchConnection; thorough: the full product (240 per flavour x 6 clock offsets) + 4000 random + 400 through dispatchConnection. "
-            "non-trivial: every handshake (fresh ephemeral key, uTLS-randomised hello); distinct by index",
+            "non-trivial: every handshake (fresh ephemeral key, uTLS-randomised hello); distinct by index. "
+            "C06mk (connector): the real client.MakeSession in a testing/synctest bubble with a scripted Dialer (per attempt: dial failure / server hangs up / "
+            "server answers garbage / server drops chrome hellos / the real dispatchConnection answers), NumConn 1..4 (thorough 1..8) x {chrome, firefox, safari}, "
+            "14 (thorough 120) calls; per attempt the goroutine, the browser fingerprint the server saw and the virtual time are replayed by the Lean event machine, "
+            "then key / connections / closed transports / options of the session; common.RandRead on scripted readers incl. the log.Fatal path (40 / 400), RandInt draws (40 / 400)",
     "assumptions": ["Lawful cipher interface (open.seal = id, tag length 16, DH commutativity, 32-byte outputs): true of AES-GCM / X25519, not proved here",
                     "uTLS emits a ClientHello that is a serialisation of the structural datatype of c06_tls_carrier with the given random / session id / X25519 share "
                     "(validated: every real hello of the run is parsed by the Lean parser and must agree with Go's parser)",
                     "net/http.ReadRequest, base64, gorilla/websocket framing, crypto/tls (the CDN) are not modelled",
-                    "TLSConn.Read returns one whole record (C05)"],
+                    "TLSConn.Read returns one whole record (C05)",
+                    "connector: goroutines of MakeSession are modelled as interleaved atomic attempts (an attempt's dial, handshake, bookkeeping happen at one point of the history); "
+                    "the order of _sessionKey.Store among simultaneous successes is not observable and taken to be the order of the dials in the replay",
+                    "connector: SameKey (every successful handshake of one MakeSession call is given the same key) is the hypothesis of mk_key_agree; its server side is C15.c15_same_session "
+                    "(restated as C06ConnectorC15.sameKey_from_c15), the client side C06.c06_reply; the cdn transport is not run through MakeSession (its fall-back behaviour is covered by gen_fallback only)",
+                    "crypto/rand.Int returns a value below its bound and panics on a bound <= 0; a Close() on a DirectTLS without a connection is a nil dereference (library / language facts)"],
     "trusted": ["crypto ORACLE: golang.org/x/crypto/curve25519 and crypto/aes+cipher called directly by the harness"],
 }
